@@ -87,7 +87,7 @@ func printManifest() {
 		}},
 		"checks":         checks,
 		"not_applicable": na,
-		"notes":          "All checks are property-based tests or fuzz campaigns (pgregory.net/rapid v1.3.0, native go fuzzing in thorough tiers). Exit 2 = inconclusive (infrastructure), never a violation. known_findings.json lists genuine defects found (status known/fixed).",
+		"notes":          "All checks are property-based tests (pgregory.net/rapid v1.3.0: generators, state machines, exhaustive small-range enumeration) against explicit oracles; the thorough tier of C19/C20 adds a native go test -fuzz campaign with the same oracle. Every run is a function of VERIF_SEED (default 1) except the native fuzz campaigns, whose findings are kept as replay files. Exit 2 = inconclusive (infrastructure), never a violation. known_findings.json lists the genuine defects found (status known / fixed, each with a sentinel replay).",
 	}
 	b, _ := json.MarshalIndent(m, "", " ")
 	fmt.Println(string(b))
